@@ -68,6 +68,7 @@ type Ctx struct {
 	heapTyp    map[string]types.Type     // field heap key -> Go type of the field (where known)
 	sweep      bool                      // zero-annotation sweep: uncontracted callees with loops are havoc
 	statPath   map[string]string         // FileInfo value returned by os.Stat -> the path it describes
+	expOf      map[string]string         // decimal term -> the exponent symbol read from it (Decimal.Exponent)
 	skipProp   func(props []string) bool // ensures clauses of other properties are not checked in this run
 }
 
@@ -2377,7 +2378,27 @@ func (fr *Frame) step(st *State, in ssa.Instruction) bool {
 		case token.NOT:
 			fr.vals[x] = Val{fmt.Sprintf("(not %s)", fr.val(x.X).T), x.Type()}
 		case token.SUB:
-			fr.vals[x] = Val{wrapUnsigned(x.Type(), fmt.Sprintf("(- %s)", fr.val(x.X).T)), x.Type()}
+			t := wrapUnsigned(x.Type(), fmt.Sprintf("(- %s)", fr.val(x.X).T))
+			// two's complement: the most negative value of a signed fixed-width type is its own negation (the one place
+			// where treating signed arithmetic as mathematical is wrong without any large operand being written down)
+			if b, ok := x.Type().Underlying().(*types.Basic); ok {
+				min := ""
+				switch b.Kind() {
+				case types.Int8:
+					min = "(- 128)"
+				case types.Int16:
+					min = "(- 32768)"
+				case types.Int32:
+					min = "(- 2147483648)"
+				case types.Int64, types.Int:
+					min = "(- 9223372036854775808)"
+				}
+				if min != "" {
+					v := fr.val(x.X).T
+					t = fmt.Sprintf("(ite (= %s %s) %s (- %s))", v, min, min, v)
+				}
+			}
+			fr.vals[x] = Val{t, x.Type()}
 		default:
 			fr.vals[x] = Val{c.fresh("unop", c.sortOf(x.Type())), x.Type()}
 		}
@@ -2810,7 +2831,22 @@ func (fr *Frame) call(st *State, x *ssa.Call) bool {
 			getb := fmt.Sprintf("(%s %s %s (- %s %s))", ef, arr, b.T, q, la)
 			fr.assume(st, fmt.Sprintf("(forall ((%s Int)) (! (and (=> (and (<= 0 %s) (< %s %s)) (= (select %s %s) %s)) (=> (and (<= %s %s) (< %s (+ %s %s))) (= (select %s %s) %s))) :pattern ((select %s %s))))", q, q, q, la, inner, q, geta, la, q, q, la, lb, inner, q, getb, inner, q))
 			fr.setElemHeap(st, key, sl.Elem(), arr, fmt.Sprintf("(store %s %s %s)", arr, nref, inner), nref)
-			setRes(Val{fmt.Sprintf("(mk-slice %s 0 (+ %s %s))", nref, la, lb), x.Type()})
+			res := fmt.Sprintf("(mk-slice %s 0 (+ %s %s))", nref, la, lb)
+			{
+				// the same facts in accessor form, triggered by an element of a source slice: an element known of the old
+				// slice is an element of the new one (consequences of the axiom above; they let a witness found for the old
+				// slice serve as the witness for the new one when an existential has to be re-established)
+				name := st.heap[key]
+				c.n++
+				q2 := fmt.Sprintf("i_q%d", c.n)
+				fr.assume(st, fmt.Sprintf("(forall ((%s Int)) (! (=> (and (<= 0 %s) (< %s %s)) (= (%s %s %s %s) (%s %s %s %s))) :pattern ((%s %s %s %s))))",
+					q2, q2, q2, la, ef, name, res, q2, ef, arr, a.T, q2, ef, arr, a.T, q2))
+				c.n++
+				q3 := fmt.Sprintf("i_q%d", c.n)
+				fr.assume(st, fmt.Sprintf("(forall ((%s Int)) (! (=> (and (<= 0 %s) (< %s %s)) (= (%s %s %s (+ %s %s)) (%s %s %s %s))) :pattern ((%s %s %s %s))))",
+					q3, q3, q3, lb, ef, name, res, la, q3, ef, arr, b.T, q3, ef, arr, b.T, q3))
+			}
+			setRes(Val{res, x.Type()})
 		case "delete":
 			mt := x.Call.Args[0].Type().Underlying().(*types.Map)
 			mv, kv2 := fr.val(x.Call.Args[0]), fr.val(x.Call.Args[1])
@@ -2933,7 +2969,14 @@ func (fr *Frame) call(st *State, x *ssa.Call) bool {
 		// Property C04 ("exact quantities survive display formats") raises that as an obligation at every such call.
 		xv, nv := fr.val(x.Call.Args[0]).T, fr.val(x.Call.Args[1]).T
 		if c.property == "C04" {
-			fr.obligeAt(st, "lossless.decimal", "call", fmt.Sprintf("(<= (dscale %s) %s)", xv, nv), x.Pos())
+			phi := fmt.Sprintf("(<= (dscale %s) %s)", xv, nv)
+			if e, ok := c.expOf[xv]; ok {
+				// stated for quantities whose exponent can be negated in 32 bits (exponent > -2^31): the parser keeps
+				// exponents within +-1000 (parseAmount#ensures.exponent_bounded); StringFixed cannot express 2^31 places
+				phi = fmt.Sprintf("(=> (> %s (- 2147483648)) %s)", e, phi)
+				c.note("%s: lossless.decimal is stated for quantities with exponent > -2^31 (the parser bounds exponents to +-1000)", fr.fname)
+			}
+			fr.obligeAt(st, "lossless.decimal", "call", phi, x.Pos())
 		}
 		if strings.HasSuffix(full, ".Round") || strings.HasSuffix(full, ".Truncate") {
 			r := c.fresh("rounded", "Real")
@@ -2946,6 +2989,10 @@ func (fr *Frame) call(st *State, x *ssa.Call) bool {
 	case "(github.com/shopspring/decimal.Decimal).Exponent":
 		// the exponent is minus the number of decimals stored, which is at least the number of decimals the value needs
 		e := c.fresh("exponent", "Int")
+		if c.expOf == nil {
+			c.expOf = map[string]string{}
+		}
+		c.expOf[fr.val(x.Call.Args[0]).T] = e
 		fr.assume(st, fmt.Sprintf("(and (>= (- %s) (dscale %s)) (>= %s (- 2147483648)) (< %s 2147483648))", e, fr.val(x.Call.Args[0]).T, e, e))
 		setRes(Val{e, x.Type()})
 		return true
